@@ -103,4 +103,31 @@ def loaderTTL (p : Provider) (leaf : Option Int) : Int :=
   | .cert => let t := computeTTL leaf; if t ≤ 0 then Gen.C30.keylessFailedTTL else t
   | _ => Gen.C30.keylessFailedTTL
 
+/-! ### one run of `keylessCertLoader` on a timeline
+
+The loader reads the clock twice: `start` on entry (only used for the debug log) and `now` AFTER the
+certificate provider has answered; the provider may be arbitrarily slow (on-demand issuance, KV-backed
+storage), so `ret - start` is unbounded. The TTL is computed from `now`, the cache starts the entry's
+lifetime after the loader returns. All instants in ns on one clock. -/
+
+structure Run where
+  start : Int      -- `start := time.Now()` at loader entry
+  ret : Int        -- the instant `CertProvider.GetCertificateWithContext` returns
+  now : Int        -- `now := time.Now()` taken after the provider returned
+
+/-- program order of the three instants -/
+def Run.ordered (r : Run) : Prop := r.start ≤ r.ret ∧ r.ret ≤ r.now
+
+instance (r : Run) : Decidable r.ordered := by unfold Run.ordered; infer_instance
+
+/-- TTL handed to the cache by one loader run; `notAfter` = the leaf's NotAfter (`none`: no usable leaf) -/
+def loaderRunTTL (p : Provider) (notAfter : Option Int) (r : Run) : Int :=
+  loaderTTL p (notAfter.map (· - r.now))
+
+/-- the statement's "never kept past its expiry minus the safety skew" as a predicate on a TTL handed to
+the cache at an instant with `NotAfter − instant = dNs` (1 s is the smallest TTL the cache is ever given:
+a TTL ≤ 0 would mean "no expiry"). Monotone in `dNs`: allowed for a later instant ⇒ allowed for an earlier one. -/
+def ttlAllowed (dNs ttl : Int) : Bool :=
+  decide (0 < ttl) && decide (ttl ≤ max (dNs - Gen.C30.keylessExpirySkew) second)
+
 end Specter.C30
